@@ -708,8 +708,7 @@ def check_block_ctor_dtype(prog, rep):
                     c.func.value.id in lists and c.args):
                 continue
             e = c.args[-1]
-            if not (isinstance(e, ast.Call) and (call_name(e) or '').split('.')[-1] in ctors and
-                    (call_name(e) or '').startswith('np.')):
+            if not (isinstance(e, ast.Call) and unparse(e.func) in ['np.' + k for k in ctors]):
                 continue
             n += 1
             want = lists[c.func.value.id]
